@@ -113,8 +113,11 @@ func build(p *prop, work string, tier string) (bins map[string]string, ok bool) 
 		args []string
 	}
 	targets := []target{{"props", []string{"test", "-c", "-tags", "verif", "-o", filepath.Join(work, "props.test"), "./props"}}}
-	needRace, needTool := false, false
+	needRace, needTool, needFuzz := false, false, false
 	for i := range p.jobs {
+		if p.jobs[i].fuzz != "" && tier == "thorough" {
+			needFuzz = true
+		}
 		if p.jobs[i].race {
 			needRace = true
 		}
@@ -124,6 +127,10 @@ func build(p *prop, work string, tier string) (bins map[string]string, ok bool) 
 	}
 	if needRace {
 		targets = append(targets, target{"race", []string{"test", "-c", "-race", "-tags", "verif", "-o", filepath.Join(work, "props.race.test"), "./props"}})
+	}
+	if needFuzz {
+		// -fuzz at build time adds the coverage instrumentation native fuzzing needs
+		targets = append(targets, target{"fuzz", []string{"test", "-c", "-fuzz=Fuzz", "-tags", "verif", "-o", filepath.Join(work, "props.fuzz.test"), "./props"}})
 	}
 	if needTool {
 		targets = append(targets, target{"tool", []string{"build", "-tags", "verif", "-o", filepath.Join(work, "update-wordlist"), "github.com/islishude/bip39/update-wordlist"}})
@@ -151,6 +158,8 @@ func build(p *prop, work string, tier string) (bins map[string]string, ok bool) 
 				bins[t.key] = filepath.Join(work, "update-wordlist")
 			} else if t.key == "props" {
 				bins[t.key] = filepath.Join(work, "props.test")
+			} else if t.key == "fuzz" {
+				bins[t.key] = filepath.Join(work, "props.fuzz.test")
 			} else {
 				bins[t.key] = filepath.Join(work, "props.race.test")
 			}
@@ -246,6 +255,19 @@ func run(p *prop, tier string) int {
 			continue // cancelled after a violation elsewhere
 		}
 		merged.add(filepath.Join(r.dir, "stats.json"))
+		if r.job.fuzz != "" {
+			if m := regexp.MustCompile(`execs: (\d+)`).FindAllStringSubmatch(r.log, -1); len(m) > 0 {
+				n, _ := strconv.ParseInt(m[len(m)-1][1], 10, 64)
+				merged.evals += n
+				old, _ := merged.extra["native_fuzz_execs"].(float64)
+				merged.extra["native_fuzz_execs"] = old + float64(n)
+				merged.classes["native-fuzz:"+r.job.fuzz] += n
+			}
+			if m := regexp.MustCompile(`new interesting: \d+ \(total: (\d+)\)`).FindAllStringSubmatch(r.log, -1); len(m) > 0 {
+				n, _ := strconv.ParseInt(m[len(m)-1][1], 10, 64)
+				merged.extra["native_fuzz_corpus_"+r.job.fuzz] = float64(n)
+			}
+		}
 		for _, m := range regexp.MustCompile(`KNOWN-FINDING-SEEN: signature=(.*)`).FindAllStringSubmatch(r.log, -1) {
 			known[m[1]] = true
 		}
@@ -253,6 +275,9 @@ func run(p *prop, tier string) int {
 		case r.exit == 0:
 		case r.exit == 1:
 			rp := saveReplay(p, r)
+			if rp == "" {
+				rp = crashReplay(p, r)
+			}
 			if rp == "" {
 				fmt.Fprintf(os.Stderr, "verifcheck: %s shard %d failed without a replay file (not a verdict); output:\n%s\n", r.job.name, r.shard, tail(r.log, 60))
 				infra++
@@ -347,10 +372,7 @@ func runUnit(ctx context.Context, p *prop, j *job, shard, ti int, tier string, s
 	}
 	dir := filepath.Join(work, fmt.Sprintf("j%d-s%d", jobIdx, shard))
 	os.MkdirAll(dir, 0o755)
-	bin := bins["props"]
-	if j.race {
-		bin = bins["race"]
-	}
+	bin := bins["props"] // the parent is never the race build; children are (VERIF_SELF_RACE)
 	nshards := j.shards[ti]
 	if nshards <= 0 {
 		nshards = 1
@@ -367,6 +389,10 @@ func runUnit(ctx context.Context, p *prop, j *job, shard, ti int, tier string, s
 		}
 	}
 	if j.fuzz != "" {
+		bin = bins["fuzz"]
+		if v, err := time.ParseDuration(os.Getenv("VERIF_FUZZTIME")); err == nil && v > 0 {
+			j.fuzzTime[ti] = v
+		}
 		args = []string{"-test.run", "^$", "-test.fuzz", "^" + j.fuzz + "$", "-test.fuzztime", j.fuzzTime[ti].String(), "-test.fuzzcachedir", filepath.Join(dir, "fuzzcache"), "-test.parallel", strconv.Itoa(max(1, j.weight))}
 	}
 	cctx, cancel := context.WithTimeout(ctx, timeout)
@@ -427,16 +453,9 @@ func saveReplay(p *prop, r result) string {
 	src := filepath.Join(r.dir, "fail.json")
 	b, err := os.ReadFile(src)
 	if err != nil {
-		// a fuzz crasher?
-		matches, _ := filepath.Glob(filepath.Join(r.dir, "testdata", "fuzz", "*", "*"))
-		if len(matches) == 0 {
-			return ""
-		}
-		b, err = os.ReadFile(matches[0])
-		if err != nil {
-			return ""
-		}
-		b, _ = json.MarshalIndent(map[string]any{"property": p.id, "kind": "fuzz:" + r.job.fuzz, "error": tail(r.log, 40), "case": map[string]any{"corpus_file": string(b)}}, "", " ")
+		// every property failure goes through judge(), which writes fail.json; without it the
+		// process failed for another reason (decided by crashReplay)
+		return ""
 	}
 	h := sha256.Sum256(b)
 	dst := filepath.Join(verifRoot, "replays", fmt.Sprintf("%s-%s.json", p.id, hex.EncodeToString(h[:6])))
@@ -455,7 +474,7 @@ func crashReplay(p *prop, r result) string {
 	if r.timedOut || r.exit == 3 {
 		return ""
 	}
-	if !crashRe.MatchString(r.log) || !strings.Contains(r.log, "github.com/islishude/bip39") {
+	if !crashRe.MatchString(r.log) || !strings.Contains(r.log, "github.com/islishude/bip39.") {
 		return ""
 	}
 	b, _ := json.MarshalIndent(map[string]any{"property": p.id, "kind": "crash", "error": tail(r.log, 80), "case": map[string]any{"job": r.job.name, "shard": r.shard}}, "", " ")
